@@ -24,6 +24,7 @@ EXTENDS X690, TLC, Json, IOUtils
 CONSTANTS Mode,       \* "abs" | "typed"
           Classes,    \* tag classes of abstract messages, subset of {"A", "C", "P"}
           Seed,       \* seeds the random tail
+          MaxLen,     \* abstract messages: contents lengths of the table up to this one
           Dense,      \* contents up to this length are walked octet by octet
           MaxVals     \* typed mode: values per case
 
@@ -67,7 +68,8 @@ AbsMsg(cls, num, lf, n) ==
 \* every (class, tag number, length form, contents length) whose length form holds the length
 AbsDescs ==
   {q \in Classes \X (1..Len(TagNums)) \X (1..Len(LenForms)) \X (1..Len(ContentLens)) :
-     FormHolds(LenForms[q[3]], ContentLens[q[4]])}
+     /\ ContentLens[q[4]] <= MaxLen
+     /\ FormHolds(LenForms[q[3]], ContentLens[q[4]])}
 
 Cases == ndJsonDeserialize(IOEnv.CASES_FILE)
 
